@@ -64,6 +64,76 @@ func ruleTypeForm(c *core.Ctx) {
 	x := func(g *gen.G) absint.Str { return g.Raw("type name", true) }
 	check("(*pkg/schemas.TypeList).UnmarshalJSON", "TypeList", `"type": "T" and "type": ["T"] decode to the same list`,
 		func(g *gen.G) absint.Bytes { return absint.JSONString(x(g)) }, func(g *gen.G) absint.Bytes { return absint.JSONList1(x(g)) }, `"T"`, `["T"]`)
+	// a two-element list keeps the written order. This clause is a necessary condition only while the generator is sensitive to the
+	// order, so it is ARMED by interpretation: schemas.MergeTypes on the one-branch list [{type:[null,object], properties}] and on
+	// [{type:[object,null], properties}] — if both give the same model the generator does not read positions there and the clause is
+	// recorded as not armed instead of being enforced.
+	armed, why := typeOrderMatters(c)
+	if !armed {
+		c.Pass("A-TYPEFORM", "pkg/schemas.MergeTypes", "order clause not armed", why)
+	}
+	c.Sample(map[string]any{"rule": "A-TYPEFORM", "order_clause_armed": armed, "because": why})
+	for _, pair := range [][2]string{{"object", "null"}, {"null", "object"}, {"string", "null"}, {"null", "integer"}} {
+		if !armed {
+			break
+		}
+		pair := pair
+		key := fmt.Sprintf(`"type": ["%s","%s"] decodes to the list as written`, pair[0], pair[1])
+		rs, e := run("(*pkg/schemas.TypeList).UnmarshalJSON", "TypeList", func(g *gen.G) absint.Bytes { return absint.JSONList(absint.Lit(pair[0]), absint.Lit(pair[1])) })
+		want := fmt.Sprintf(`["%s" "%s"]`, pair[0], pair[1])
+		switch {
+		case e != "" || len(rs) != 1:
+			c.Undecided("A-TYPEFORM", "(*pkg/schemas.TypeList).UnmarshalJSON", key, "", fmt.Sprintf("interpretation undecided: %s (%d worlds)", e, len(rs)))
+		case !rs[0].errNil:
+			c.Fail("A-TYPEFORM", "(*pkg/schemas.TypeList).UnmarshalJSON", key, "", "decoding the two-element list returns an error", nil)
+		case absint.DebugValue(rs[0].val) != want:
+			c.Fail("A-TYPEFORM", "(*pkg/schemas.TypeList).UnmarshalJSON", key, "", fmt.Sprintf("decodes to %s, expected %s: the order (or content) of the written type list is changed by the decoder", absint.DebugValue(rs[0].val), want), nil)
+		default:
+			c.Pass("A-TYPEFORM", "(*pkg/schemas.TypeList).UnmarshalJSON", key, "decodes to "+want)
+		}
+	}
 	check("(*pkg/schemas.Type).UnmarshalJSON", "Type", "true and {} decode to the same schema",
 		func(g *gen.G) absint.Bytes { return absint.JSONLit("true") }, func(g *gen.G) absint.Bytes { return absint.JSONLit("{}") }, "true", "{}")
+}
+
+// typeOrderMatters interprets schemas.MergeTypes on a single nullable-object branch in both type-list orders.
+func typeOrderMatters(c *core.Ctx) (bool, string) {
+	fn, err := c.Prog.MustFunc("pkg/schemas.MergeTypes")
+	if err != nil {
+		return true, "anchor pkg/schemas.MergeTypes not found (" + err.Error() + "): the clause stays armed"
+	}
+	render := func(order [2]string) (string, string) {
+		runs, complete := absint.Explore(c.Prog, 64, func(m *absint.Machine) { gen.InstallStubs(m) }, func(m *absint.Machine) any {
+			g := gen.New(m)
+			name := g.Raw("property name", true)
+			n := g.Node(map[string]gen.V{"Type": g.Types(order[0], order[1]),
+				"Properties": g.Map([]gen.V{name}, []gen.V{g.Node(map[string]gen.V{"Type": g.Types("string")})}), "Required": g.Strs(name)})
+			r := m.CallFunction(fn, []absint.Value{g.Nodes(n)}, nil)
+			if t, ok := r.(absint.Tuple); ok && len(t) > 0 {
+				if p, isP := t[0].(absint.Ptr); isP && p.P != nil {
+					return absint.DebugValue(*p.P)
+				}
+				return absint.DebugValue(t[0])
+			}
+			return absint.DebugValue(r)
+		})
+		noteRuns(c, runs)
+		if !complete || len(runs) != 1 || runs[0].Err != nil {
+			e := "fork budget / several worlds"
+			if len(runs) > 0 && runs[0].Err != nil {
+				e = runs[0].Err.Error()
+			}
+			return "", e
+		}
+		return runs[0].Out.(string), ""
+	}
+	a, ea := render([2]string{"null", "object"})
+	b, eb := render([2]string{"object", "null"})
+	if ea != "" || eb != "" {
+		return true, "MergeTypes could not be interpreted on the probe (" + ea + " " + eb + "): the clause stays armed"
+	}
+	if a != b {
+		return true, "MergeTypes gives " + a + " for [null,object] and " + b + " for [object,null]: positions in the type list are read"
+	}
+	return false, "MergeTypes gives the same model for [null,object] and [object,null]: " + a
 }
